@@ -134,6 +134,34 @@ Theorem each_once_without_independence_refuted :
 Proof. exact each_once_nested_refuted_lemma. Qed.
 Print Assumptions each_once_without_independence_refuted.
 
+(* ---------------- the spelling of a configured directory ---------------- *)
+
+(* resolve() (modelled as segment folding, no symlinks): "." segments and "name/.." pairs vanish wherever they
+   stand, a spelling without them is kept, and the result never contains them. *)
+Theorem resolve_folds_segments : forall a x b,
+  resolve_path (a ++ [DOT] :: b) = resolve_path (a ++ b) /\
+  (plain_seg x -> resolve_path (a ++ x :: DOTDOT :: b) = resolve_path (a ++ b)).
+Proof. intros a x b. split; [apply resolve_dot_segment_lemma | apply resolve_updown_lemma]. Qed.
+Print Assumptions resolve_folds_segments.
+
+Theorem resolve_is_canonical : forall p,
+  Forall plain_seg (resolve_path p) /\ (Forall plain_seg p -> resolve_path p = p) /\
+  resolve_path (resolve_path p) = resolve_path p.
+Proof.
+  intros p. split; [apply resolve_plain_lemma|]. split; [apply resolve_canonical_lemma | apply resolve_idem_lemma].
+Qed.
+Print Assumptions resolve_is_canonical.
+
+(* get_component_files / get_component_dirs do not depend on how the directories of COMPONENTS.dirs /
+   STATICFILES_DIRS are spelled (proj/config/../components, proj/./components, tuple or plain form):
+   two configurations whose entries resolve to the same directories give the same result. *)
+Theorem spelling_invariance : forall w1 w2,
+  same_but_spelling w1 w2 ->
+  (forall suffix, get_component_files w1 suffix = get_component_files w2 suffix) /\
+  (forall ia, get_component_dirs w1 ia = get_component_dirs w2 ia).
+Proof. exact spelling_invariance_lemma. Qed.
+Print Assumptions spelling_invariance.
+
 (* ---------------- the dot path ---------------- *)
 
 (* The guard of the theorems below is the negation of the recorded finding's input class, as the harness decides
@@ -224,6 +252,15 @@ Example ex_files :
       (s2n "comps.a", [s2n "proj"; s2n "comps"; s2n "a.py"]);
       (s2n "comps.sub.m", [s2n "proj"; s2n "comps"; s2n "sub"; s2n "m.py"])].
 Proof. vm_compute. reflexivity. Qed.
+
+(* the same directory written proj/config/../comps/. in plain form (witness noncanonical-dotdot-dir): same result *)
+Definition ex_world_spelled : world :=
+  {| w_root := ex_tree; w_base := [s2n "proj"];
+     w_dirs := Some [RPlain (PAbs [s2n "proj"; s2n "config"; s2n ".."; s2n "comps"; s2n "."])];
+     w_static := []; w_app_dirs := []; w_apps := [] |}.
+Example ex_spelling : same_but_spelling ex_world ex_world_spelled /\
+  get_component_files ex_world_spelled (Some PY) = get_component_files ex_world (Some PY).
+Proof. split; [repeat split | vm_compute; reflexivity]. Qed.
 
 (* no suffix (witness no-suffix-returns-directories): the files, not the directories sub/ and x.py/ *)
 Example ex_files_nosuffix :
